@@ -392,6 +392,8 @@ pub fn run(tier: Tier) -> i32 {
         ("nested-svg-ref/offset-without-size", r##"<svg><svg id="n" x="30" y="5"><rect wh="40 50"/></svg><rect id="x" surround="#n"/></svg>"##, Some((30., 5., 70., 55.))),
         ("circumscribed-circle/non-square", r##"<svg><rect id="a" xy="10 20" wh="20 10"/><circle id="x" surround="#a"/></svg>"##, Some((8.82, 13.82, 31.18, 36.18))),
         ("own-transform/not-invertible/matrix", r##"<svg><rect id="a" xy="20 0" wh="10"/><rect id="x" surround="#a" margin="1" transform="matrix(1 0 0 1 5 5)"/></svg>"##, Some((14., -6., 26., 6.))),
+        ("clipped-reference/inside", r##"<svg><clipPath id="cp"><rect wh="5"/></clipPath><rect id="a" wh="20" clip-path="url(#cp)"/><rect id="x" inside="#a"/></svg>"##, Some((0., 0., 5., 5.))),
+        ("clipped-reference/surround", r##"<svg><clipPath id="cp"><rect wh="5"/></clipPath><rect id="a" wh="20" clip-path="url(#cp)"/><rect id="x" surround="#a"/></svg>"##, Some((0., 0., 5., 5.))),
         ("text-ref/text-loc", r##"<svg><text id="t" xy="20 20" text-loc="tl">hi</text><rect id="x" surround="#t" margin="0.5"/></svg>"##, Some((18.5, 18.5, 19.5, 19.5))),
         ("text-ref/plain", r##"<svg><text id="t" xy="20 20">hi</text><rect id="x" surround="#t" margin="2 1"/></svg>"##, Some((19., 18., 21., 22.))),
         ("prev-after-deferred/surround", r##"<svg><rect id="a" wh="10"/><rect id="x" surround="^ #z"/><rect id="z" xy="20" wh="3"/></svg>"##, Some((0., 0., 23., 23.))),
